@@ -114,12 +114,27 @@ Proof.
   intros size offsets. unfold call. cbn [bind_params params DefaultCleaner_def].
   rewrite exec_flat. change (flat (body DefaultCleaner_def)) with dc_flat. rewrite dc_shape, exec_list_app.
   match goal with |- context [exec_list [] dc_pre ?e] =>
-    let r := eval cbn in (exec_list [] dc_pre e) in change (exec_list [] dc_pre e) with r end.
-  cbv beta iota. rewrite exec_list_cons, exec_range.
-  match goal with |- context [eval [] ?e dc_xs] =>
-    let r := eval cbn in (eval [] e dc_xs) in change (eval [] e dc_xs) with r end.
-  cbv beta iota. unfold default_cleaner.
-  erewrite dc_loop; reflexivity.
+    let r := eval cbn -[Z.eqb Z.ltb Z.leb Z.gtb Z.geb Z.add Z.sub Z.mul Z.min Z.max Z.of_nat] in (exec_list [] dc_pre e) in
+    change (exec_list [] dc_pre e) with r end.
+  (* the statements before the loop may test their way to an early return (e.g. an empty-list fast path): split on the
+     comparisons; an early return must agree with the model on that case, otherwise the loop lemma applies *)
+  repeat match goal with
+         | |- context [Z.gtb ?a ?b] => rewrite (Z.gtb_ltb a b)
+         | |- context [Z.geb ?a ?b] => rewrite (Z.geb_leb a b)
+         | |- context [Z.eqb ?a ?b] => destruct (Z.eqb_spec a b)
+         | |- context [Z.ltb ?a ?b] => destruct (Z.ltb_spec a b)
+         | |- context [Z.leb ?a ?b] => destruct (Z.leb_spec a b)
+         end;
+  cbv beta iota;
+  first
+    [ (* early return *)
+      solve [ destruct offsets as [|o l]; cbn [List.length] in *;
+              first [ reflexivity | exfalso; lia | unfold default_cleaner; cbn [default_loop]; repeat f_equal; lia ] ]
+    | rewrite exec_list_cons, exec_range;
+      match goal with |- context [eval [] ?e dc_xs] =>
+        let r := eval cbn in (eval [] e dc_xs) in change (eval [] e dc_xs) with r end;
+      cbv beta iota; unfold default_cleaner;
+      erewrite dc_loop; reflexivity ].
 Qed.
 
 Definition fe1 : fenv := [("DefaultCleaner", call [] DefaultCleaner_def)].
